@@ -109,9 +109,12 @@ let site_parse = function "C" -> SC | "Y" -> SY | "F" -> SF | s -> fail "site %s
 let ak_str = function ALoad -> "load" | AStore -> "store" | AAdd -> "add"
 let ak_parse = function "load" -> ALoad | "store" -> AStore | "add" -> AAdd | s -> fail "akind %s" s
 
+let ord_str = function ORelaxed -> "Relaxed" | OAcquire -> "Acquire" | ORelease -> "Release" | OAcqRel -> "AcqRel" | OSeqCst -> "SeqCst"
+let ord_parse = function "Relaxed" -> ORelaxed | "Acquire" -> OAcquire | "Release" -> ORelease | "AcqRel" -> OAcqRel | "SeqCst" -> OSeqCst | s -> fail "ordering %s" s
+
 let label_str = function
   | LCall t -> Printf.sprintf "L %d call" (int_of_nat t)
-  | LAtom (t, s, k, a, r) -> Printf.sprintf "L %d atom %s %s %s %s" (int_of_nat t) (site_str s) (ak_str k) (n_str a) (n_str r)
+  | LAtom (t, s, k, a, r, o) -> Printf.sprintf "L %d atom %s %s %s %s %s" (int_of_nat t) (site_str s) (ak_str k) (n_str a) (n_str r) (ord_str o)
   | LSrc (t, r) -> Printf.sprintf "L %d src %s" (int_of_nat t) (on_str r)
   | LSrcPanic t -> Printf.sprintf "L %d srcpanic" (int_of_nat t)
 let event_str = function
@@ -326,9 +329,11 @@ type trace = { tid_ : string; labels : label list; events : event list; flags : 
 let label_parse (w : string list) : label =
   match w with
   | [t; "call"] -> LCall (nat_of_int (int_of_string t))
-  | t :: "atom" :: s :: k :: a :: r :: _ -> LAtom (nat_of_int (int_of_string t), site_parse s, ak_parse k, n_parse a, n_parse r)
+  | [t; "atom"; s; k; a; r; o] -> LAtom (nat_of_int (int_of_string t), site_parse s, ak_parse k, n_parse a, n_parse r, ord_parse o)
+  | [t; "atom"; s; k; a; r] -> LAtom (nat_of_int (int_of_string t), site_parse s, ak_parse k, n_parse a, n_parse r, OSeqCst)
   | [t; "src"; r] -> LSrc (nat_of_int (int_of_string t), on_parse r)
   | [t; "srcpanic"] -> LSrcPanic (nat_of_int (int_of_string t))
+  | [t; "srchint"] -> LSrc (nat_of_int (int_of_string t), None)   (* another use of the wrapped iterator: judged like a call of next *)
   | _ -> fail "label %s" (String.concat " " w)
 
 let read_traces ic : trace list =
